@@ -350,18 +350,25 @@ func runHandover(n, which, seed int) modesResult {
 	return res
 }
 
-// descmodes <seed>: in a process of its own (a panic in Description() on the loop's goroutine kills it)
+// descmodes <seed> [panic|nopanic]: the panicking kinds in a process of its own (a panic in Description() on the loop's goroutine kills it)
 func cmdDescModes() {
 	seed := argInt(2, 1)
+	which := argStr(3, "all") // all | panic | nopanic
 	var wg sync.WaitGroup
 	for _, mode := range []string{"unbounded", "pool", "blocking"} {
 		for _, kind := range []string{"mutex", "slow", "panic"} {
+			if (which == "panic") != (kind == "panic") && which != "all" {
+				continue
+			}
 			mode, kind := mode, kind
 			wg.Add(1)
 			go func() { defer wg.Done(); emit(runDescMode(mode, kind, seed)) }()
 		}
 	}
 	for _, nw := range [][2]int{{2, 0}, {2, 1}, {3, 0}, {3, 1}, {3, 2}} {
+		if which == "panic" {
+			break
+		}
 		nw := nw
 		wg.Add(1)
 		go func() { defer wg.Done(); emit(runHandover(nw[0], nw[1], seed)) }()
